@@ -139,7 +139,7 @@ def session(segs, chunks_of, recv_cb="ok"):
 def bind(chk: Check, tier: str, seed: int):
     wd = workdir("C20")
     rng = random.Random(seed)
-    pk = usb_packets(8)
+    pk = usb_packets(9)
     valid = set(pk)
     recs, meta = [], []
     plen = {"quick": 2, "thorough": 3, "selftest": 2}[tier]
@@ -148,11 +148,15 @@ def bind(chk: Check, tier: str, seed: int):
         pats = pats[::5]
     longs = [("V", f"Long{n}", "V", "V") for n in ((200, 10000, 100000) if tier != "thorough" else (200, 10000, 100000, 1000000))]
     longs += [("V", "Long10000m", "V", "V"), ("Long5000", "Nhalf", "V", "V"), ("V", "Long3000", "T15", "Long3000", "V", "V")]
+    # long runs of valid packets behind a little noise: full-size reads with a partial packet pending
+    runs = [("Nfree1",) + ("V",) * 8, ("V", "Nfree21") + ("V",) * 7, ("T19",) + ("V",) * 8, ("V",) * 8]
     cutters = {"whole": lambda s: [s[i:i + 20000] for i in range(0, len(s), 20000)] or [s],
                "bytewise": lambda s: [s[i:i + 1] for i in range(len(s))],
                "split7": lambda s: [s[i:i + 7] for i in range(0, len(s), 7)],
-               "split33": lambda s: [s[i:i + 33] for i in range(0, len(s), 33)]}
-    for pat in pats + longs:
+               "split33": lambda s: [s[i:i + 33] for i in range(0, len(s), 33)],
+               "split97": lambda s: [s[i:i + 97] for i in range(0, len(s), 97)],
+               "7+rest": lambda s: [s[:7], s[7:]]}
+    for pat in pats + longs + runs:
         for attempt in range(20):
             segs = build(pat, pk, rng)
             if not false_valid_window(b"".join(seg_bytes(s) for s in segs), valid):
@@ -160,8 +164,9 @@ def bind(chk: Check, tier: str, seed: int):
         else:
             continue
         long = any(k.startswith("Long") for k in pat)
-        for cname in (("whole", "split33") if long else ("whole", "bytewise", "split7")):
-            if tier != "thorough" and not long and cname != "whole" and rng.random() < 0.6:
+        isrun = pat in runs
+        for cname in (("whole", "split33") if long else ("whole", "split97", "7+rest", "split33") if isrun else ("whole", "bytewise", "split7")):
+            if tier != "thorough" and not long and not isrun and cname != "whole" and rng.random() < 0.6:
                 continue
             recs.append(session(segs, cutters[cname]))
             meta.append(("waveshare", "ok", cname, list(pat)))
